@@ -107,6 +107,7 @@ package hashgraph
 //@   ensures[empty]   common.IsStore(ret1, common.Empty) ==> __in(participant, G_rep(s)) && G_lastIdx(s)[participant] == -1 && G_last(s)[participant] == ""
 //@   ensures[unknown] !__in(participant, G_rep(s)) ==> ret1 != nil && !common.IsStore(ret1, common.Empty)
 //@   ensures[none]    __in(participant, G_rep(s)) && G_lastIdx(s)[participant] < 0 ==> ret1 != nil
+//@   ensures[no-hash-on-error] ret1 != nil ==> ret0 == ""
 
 //@ iface func (s Store) SetEvent(event *Event) error
 //@   requires event != nil
@@ -1189,6 +1190,7 @@ package hashgraph
 //@   ensures[unknown] !pec.known(participant) ==> common.IsStore(ret1, common.UnknownParticipant)
 //@   ensures[empty]   pec.known(participant) && len(pec.idx(participant).Items()) == 0 ==> common.IsStore(ret1, common.Empty)
 //@   ensures[last]    pec.known(participant) && len(pec.idx(participant).Items()) > 0 ==> ret1 == nil && interface{}(ret0) == pec.idx(participant).Items()[len(pec.idx(participant).Items())-1]
+//@   ensures[no-hash-on-error] ret1 != nil ==> ret0 == ""
 
 //@ func (pec *ParticipantEventsCache) GetItem(participant string, index int) (string, error)
 //@   safety on
@@ -1567,6 +1569,7 @@ package hashgraph
 //@   safety on
 //@   requires s != nil && s.coupled()
 //@   modifies nothing
+//@   ensures[no-hash-on-error] err != nil ==> last == ""
 
 //@ func (c *PeerSetCache) GetAll() (map[int][]*peers.Peer, error)
 //@   safety on
@@ -1648,3 +1651,15 @@ package hashgraph
 //@   safety on
 //@   requires s != nil && s.coupled()
 //@   modifies nothing
+
+// What a node hands to a peer that asks to fast-forward: its anchor block as stored, with the frame of that block's
+// round-received (C12/C13: the pair the receiver checks against each other).
+//@ func (h *Hashgraph) GetAnchorBlockWithFrame() (*Block, *Frame, error)
+//@   safety on
+//@   requires h != nil && h.MemoOK()
+//@   ensures[memo]   h.MemoOK()
+//@   ensures[none]   h.AnchorBlock == nil ==> ret2 != nil
+//@   ensures[anchor] ret2 == nil ==> h.AnchorBlock != nil && ret0 != nil && ret0 == G_blocks(h.Store)[*h.AnchorBlock] && ret0.Body.Index == *h.AnchorBlock
+//@   ensures[frame]  ret2 == nil ==> ret1 != nil && __called("GetFrame") && __lastret("GetFrame", 0) == ret1
+//@   call GetFrame assert[of-anchor-round] __arg(0) == G_blocks(h.Store)[*h.AnchorBlock].Body.RoundReceived
+//@   ensures[err]    ret2 != nil ==> ret0 == nil && ret1 == nil
